@@ -7,6 +7,7 @@ C03 - what is documented in each namespace is what Python defines there.  Claime
   R03.5 the `__main__` guard is recognised by equality only
   R03.6 an existing Function object is re-entered only for overloads
   R03.7 the walk descends into every block executed in addition to the body (loop/try else, finally)
+  R03.8 sibling variable handlers: an attribute found without a kind gets one
 Does not decide: the differential statement against the interpreter (members, docstrings, kinds for every program).
 """
 from __future__ import annotations
@@ -245,4 +246,29 @@ def run(repo: Repo, chk: Check, thorough: bool = False) -> None:
                f'definitions in the `{fld}` block of {", ".join(owners)} are never visited: a function / class / variable bound there on import is '
                'missing from the documentation', gc.loc)
     chk.require('R03.7', 2)
+
+    # ------------------------------------------------------------------ R03.8
+    # the three variable handlers are siblings: each may find an attribute that extract_fields() created from a docstring field (@type x,
+    # @ivar x) with kind None, and an object without a kind is HIDDEN whatever the rules say.  Each must give the kind on every path that
+    # goes on to store the value.
+    for hn in ('_handleModuleVar', '_handleClassVar', '_handleInstanceVar'):
+        h = repo.func(f'{MV}.{hn}')
+        gets = [n for n in h.walk() if isinstance(n, ast.Assign) and isinstance(n.targets[0], ast.Name) and
+                any(isinstance(c, ast.Call) and call_name(c) == 'get' and isinstance(c.func, ast.Attribute) and isinstance(c.func.value, ast.Attribute) and
+                    c.func.value.attr == 'contents' for c in ast.walk(n.value))]
+        if not gets:
+            raise AnalysisError(f'R03.8: {hn} no longer looks the attribute up in contents')
+        ov = gets[0].targets[0].id
+        sets_kind = [n for n in h.walk() if isinstance(n, ast.Assign) and any(isinstance(t, ast.Attribute) and t.attr == 'kind' and dotted(t.value) == ov for t in n.targets)]
+        cfh = CFG(h)
+        store = [c for c in calls_in(h) if call_name(c) == '_storeAttrValue']
+        okk = bool(sets_kind) and bool(store) and all(
+            cfh.must_pass(cfh.ENTRY, cfh.stmt_of(store[0]), [k for k in sets_kind] +
+                          [n for n in h.walk() if isinstance(n, ast.If) and any((norm(t) == f'{ov}.kind is None') for t in [n.test])], no_exc=True) for _ in [0])
+        chk.ob('R03.8', f'{MV}.{hn} :: an attribute found without a kind gets one', okk,
+               f'`{norm(sets_kind[0])[:60]}` (or its `is None` guard) is on every path to the stored value' if okk else
+               f'{hn} never assigns `{ov}.kind`: a variable that a docstring field declared first (`@type timeout: int` in the module docstring, then '
+               '`timeout = 30`) keeps kind None, is HIDDEN - missing from the page, the search and the inventory - and no --privacy rule can bring it back',
+               h.loc)
+    chk.require('R03.8', 3)
 
